@@ -58,6 +58,7 @@ type sink struct {
 	events   []event
 	ptrIDs   map[uintptr]string // pointer -> symbolic id
 	ptrCount map[string]int
+	pinned   []any             // every identified object is kept reachable: a collected object's address could be reused and two objects would share an id
 	objStep  map[string]string // obj id -> step id
 	sched    *schedule
 	actions  map[string]func() // action name -> function
@@ -121,6 +122,7 @@ func (s *sink) ptrID(prefix string, v any) string {
 	id := prefix + strconv.Itoa(s.ptrCount[prefix])
 	s.ptrCount[prefix]++
 	s.ptrIDs[p] = id
+	s.pinned = append(s.pinned, v)
 	return id
 }
 
